@@ -222,6 +222,12 @@ def gen_cases(rec, rng, tier):
         RPc = pdag.colliding_names(rng, RP)
         if RPc is not None:
             yield {'cls': 'colliding_state_and_stack_names', 'ref': RPc, 'n': n, 'eps': ''}
+        RPm = pdag.multichar_stack_symbols(rng, RP)
+        if RPm is not None:
+            yield {'cls': 'multichar_stack_symbols', 'ref': RPm, 'n': n, 'eps': ''}
+        RPg = pdag.helper_names_with_gaps(rng, RP)
+        if RPg is not None:
+            yield {'cls': 'helper_state_names_with_gaps', 'ref': RPg, 'n': n, 'eps': ''}
         if rng.random() < 0.4:
             names = ['q_accept1', 'q_initial1', 'M1', 'M2', 'q_accept2'][:len(RP[0])]
             rng.shuffle(names)
